@@ -224,14 +224,16 @@ theorem stateAfter_full_complete (data : Bytes) (ps : Nat) (seen : List Nat)
   rw [this]
   simp
 
-theorem stateAfter_full_reader (data : Bytes) (ps : Nat) (hps : 0 < ps) (seen : List Nat)
-    (h : ∀ i, i < numParts data.length ps → i ∈ seen) :
-    (stateAfter H data ps seen).reader = if data = [] then .error .range else .ok data := by
-  have hc := stateAfter_full_complete H data ps seen h
+/-- a complete set whose slots hold exactly the parts built by `NewPartSetFromData` reads back
+the data -/
+theorem reader_of_full (data : Bytes) (ps : Nat) (hps : 0 < ps) (s : PartSet)
+    (hc : s.isComplete = true)
+    (hp : s.parts = (List.range (numParts data.length ps)).map (fun j => some (partAt H data ps j))) :
+    s.reader = if data = [] then .error .range else .ok data := by
   unfold PartSet.reader
   rw [hc]
   simp only [not_true_eq_false, if_false]
-  simp only [stateAfter, stateAfter_full_slots H data ps seen h]
+  rw [hp]
   by_cases hd : data = []
   · subst hd
     simp [numParts_eq_zero 0 ps hps |>.mpr rfl]
@@ -260,6 +262,12 @@ theorem stateAfter_full_reader (data : Bytes) (ps : Nat) (hps : 0 < ps) (seen : 
       intro j hj
       exact partAt_bytes H data ps j (by simpa using hj)
     exact (congrArg List.flatten this).trans (split_flatten data ps hps)
+
+theorem stateAfter_full_reader (data : Bytes) (ps : Nat) (hps : 0 < ps) (seen : List Nat)
+    (h : ∀ i, i < numParts data.length ps → i ∈ seen) :
+    (stateAfter H data ps seen).reader = if data = [] then .error .range else .ok data :=
+  reader_of_full H data ps hps _ (stateAfter_full_complete H data ps seen h)
+    (stateAfter_full_slots H data ps seen h)
 
 /-! ### soundness of an accepted part against the block's header -/
 
